@@ -270,12 +270,14 @@ def do_replay(path):
             for rel in (False, True):
                 res, crashed, outp = R.run_playback(ws, rp["crate"], rp["test"], rp.get("features", ()), rel)
                 t = res.get(rp["test"], {})
+                artefact = "concrete_playback.rs" in (t.get("panic_at") or "")
+                hit = (t.get("failed") and not artefact) or crashed
                 print("replay %s profile=%s -> %s %s" % (rp["test"], "release-like" if rel else "dev",
-                                                        "FAILED (reproduced)" if t.get("failed") or crashed else "passed",
+                                                        "FAILED (reproduced)" if hit else ("passed (only Kani's left-over-values bookkeeping fired)" if artefact else "passed"),
                                                         t.get("panic_at", "")))
-                if t.get("panic_msg"):
+                if t.get("panic_msg") and not artefact:
                     print("   " + t["panic_msg"])
-                ok = ok or t.get("failed") or crashed
+                ok = ok or hit
             if ok:
                 print("VIOLATION property=%s replay=%s" % (rp["property"], path))
                 return 1
